@@ -30,6 +30,7 @@ type c14Case struct {
 	Searched string   `json:"searched,omitempty"` // "" | abort | accept
 	// a list is displayed without a selected candidate and text is typed under it before the menu keys
 	ListFirst bool `json:"list_first,omitempty"`
+	Auto      bool `json:"auto,omitempty"` // set autocomplete on
 	Text2    string   `json:"text2,omitempty"`
 	Keys2    []string `json:"keys2,omitempty"`
 }
@@ -67,9 +68,15 @@ func c14Gen(r *rand.Rand, tier string, idx int) any {
 	if c.ICase {
 		c.Inputrc += "set completion-ignore-case on\n"
 	}
+	if r.Intn(6) == 0 {
+		// as-you-type completion: the candidates are regenerated at every redisplay, also after
+		// a pure cursor movement to another word
+		c.Inputrc += "set autocomplete on\n"
+		c.Auto = true
+	}
 	c.L0 = pick(r, c14Lines)
 	rs := []rune(c.L0)
-	if len(rs) > 0 && r.Intn(3) == 0 {
+	if len(rs) > 0 && (r.Intn(3) == 0 || c.Auto && r.Intn(2) == 0) {
 		c.Back = r.Intn(len(rs) + 1)
 	}
 	c0 := len(rs) - c.Back
@@ -232,7 +239,7 @@ func c14Run(env *fw.Env, raw json.RawMessage) fw.Outcome {
 		}
 	}
 	res := s.Call(plan, retExit)
-	ctx := fmt.Sprintf("mode=%s searched-before=%q L0=%q back=%d values=%q descs=%v tagged=%v nospace=%v icase=%v keys=%v", c.Mode, c.Searched, c.L0, c.Back, c.Values, len(c.Descs) > 0, c.Tagged, c.NoSp, c.ICase, c.Keys)
+	ctx := fmt.Sprintf("mode=%s autocomplete=%v searched-before=%q L0=%q back=%d values=%q descs=%v tagged=%v nospace=%v icase=%v keys=%v", c.Mode, c.Auto, c.Searched, c.L0, c.Back, c.Values, len(c.Descs) > 0, c.Tagged, c.NoSp, c.ICase, c.Keys)
 	if !stdFailures(&o, res, ctx) {
 		o.O.Sample = map[string]any{"ctx": ctx}
 		return o.O
@@ -417,6 +424,9 @@ func c14Run(env *fw.Env, raw json.RawMessage) fw.Outcome {
 	}
 	if c.ListFirst {
 		o.Add("cases_with_text_typed_under_a_displayed_list", 1)
+	}
+	if c.Auto {
+		o.Add("cases_with_autocomplete_on", 1)
 	}
 	o.O.Sample = map[string]any{"mode": c.Mode, "L0": c.L0, "back": c.Back, "values": c.Values, "keys": c.Keys}
 	return o.O
